@@ -27,7 +27,7 @@ type c07 struct{}
 func (c07) ID() string    { return "C07" }
 func (c07) Level() string { return "exploration" }
 func (c07) Rule() string {
-	return "cases = CNF problems read by explain.ParseCNF: T2 (n=2, dirty clauses: empty, repeated literals, tautologies; <=3 clauses), all S3 multisets of <=4 clauses (5 thorough), S4 multisets, and the 'cores' family (unions of two minimal cores that overlap or are disjoint, plus one redundant clause, in several clause orders, with repeated clauses and trivially conflicting units) x method {MUS, MUSDeletion, MUSInsertion, MUSMaxSat} x heuristic choice list (<=1 deviation across the dozens of solver calls of one extraction). Oracle: satisfiable input => error and nil result; unsatisfiable => result is a sub-multiset of the input, unsatisfiable by truth table, and removing any single clause makes it satisfiable; the receiver's Clauses/NbVars/NbClauses are deep-equal to their values before the call, and a second extraction on the same Problem value (every ordered pair of methods, on the cores and conflict-rich families) is judged by the same oracle. Non-trivial = the input is unsatisfiable and has more clauses than the returned MUS."
+	return "cases = CNF problems read by explain.ParseCNF: T2 (n=2, dirty clauses: empty, repeated literals, tautologies; <=3 clauses), all S3 multisets of <=4 clauses (5 thorough), S4 multisets, and the 'cores' family (unions of two minimal cores that overlap or are disjoint, plus one redundant clause, in several clause orders, with repeated clauses and trivially conflicting units) x method {MUS, MUSDeletion, MUSInsertion, MUSMaxSat} x heuristic choice list (<=1 deviation across the dozens of solver calls of one extraction). Oracle: satisfiable input => error and nil result; unsatisfiable => result is a sub-multiset of the input, unsatisfiable by truth table, and removing any single clause makes it satisfiable; the receiver's Clauses/NbVars/NbClauses are deep-equal to their values before the call, and a second extraction on the same Problem value (every ordered pair of methods, on T2 with <=2 clauses, S3 with <=3 clauses — satisfiable problems included: an error both times —, the cores and conflict-rich families) is judged by the same oracle. Non-trivial = the input is unsatisfiable and has more clauses than the returned MUS."
 }
 func (c07) Assumptions() []string {
 	return []string{"truth-table reference is correct", "problems are built through explain.ParseCNF from a canonical DIMACS rendering with exact header counts"}
@@ -142,6 +142,13 @@ func (c07) Enumerate(tier string, seed int64, yield func(string, core.Case) bool
 		}
 	}
 	if !famCores(thorough, func(f [][]int, n int) bool { return emit("cores", f, n) }) {
+		return
+	}
+	// small problems, satisfiable ones included (an error the first time must be an error the second time)
+	if !famT2(2, 2, func(f [][]int, n int) bool { return emitPairs("T2-twice", f, n, 0) }) {
+		return
+	}
+	if !famS3(0, 3, func(f [][]int, n int) bool { return emitPairs("S3-twice", f, n, 0) }) {
 		return
 	}
 	if !famCores(false, func(f [][]int, n int) bool { return emitPairs("cores-twice", f, n, 0) }) {
@@ -323,6 +330,25 @@ func (c07) Exec(cc core.Case, r *core.Rec) []core.Failure {
 				add("no-error-on-satisfiable", fmt.Sprintf("returned %v and no error for a satisfiable problem", res))
 			} else if res != nil {
 				add("result-with-error", "a non-nil result is returned together with the error")
+			}
+			if c.Then != "" && len(fs) == 0 { // the same satisfiable Problem value asked again: still an error
+				var res2 *explain.Problem
+				var err2 error
+				pn, ab = guard(func() { res2, err2 = runMUS(pb, c.Then) })
+				pre := c.Then + "/second-call-on-same-problem"
+				switch {
+				case pn != "":
+					add(pre+"/panic@"+lastPanicSite, "after "+c.Method+" (satisfiable problem): "+pn)
+				case ab:
+					add(pre+"/nontermination", "after "+c.Method)
+				case err2 == nil:
+					add(pre+"/no-error-on-satisfiable", fmt.Sprintf("after %s answered with an error, %s returned %v and no error for the same satisfiable problem", c.Method, c.Then, res2))
+				case res2 != nil:
+					add(pre+"/result-with-error", "after "+c.Method)
+				}
+				if !deepEqualCNF(pb.Clauses, before) || pb.NbVars != nv || pb.NbClauses != nc {
+					add(pre+"/caller-problem-modified", "after "+c.Method)
+				}
 			}
 			return fs
 		}
